@@ -875,12 +875,11 @@ func inTimeNow(g *G, fn *ssa.Function, args []Value) Value {
 		m.addPC(c.And(c.Sle(c.BV(64, 1600000000), sec), c.Sle(sec, c.BV(64, 4000000000))))
 		m.addPC(c.Ult(nsec, c.BV(32, 1000000000)))
 	}
-	// combined instant in nanoseconds is non-decreasing across calls
-	inst := c.Add(c.Mul(sec, c.BV(64, 1000000000)), c.Zext(nsec, 64))
-	if m.lastNow != nil && m.cfg.FixedVector == nil {
-		m.addPC(c.Sle(m.lastNow, inst))
+	// instants are non-decreasing across calls (lexicographic on seconds, nanoseconds)
+	if m.lastSec != nil && m.cfg.FixedVector == nil {
+		m.addPC(c.Or(c.Slt(m.lastSec, sec), c.And(c.Eq(m.lastSec, sec), c.Ule(m.lastNsec, nsec))))
 	}
-	m.lastNow = inst
+	m.lastSec, m.lastNsec = sec, nsec
 	return m.mkTime(g, sec, nsec)
 }
 
@@ -1104,4 +1103,65 @@ func inInf(g *G, fn *ssa.Function, args []Value) Value {
 		return g.m.ctx.FPConst(math.Inf(1))
 	}
 	return g.m.ctx.FPConst(math.Inf(-1))
+}
+
+// ---- strings.Builder (its real code relies on unsafe) ----
+
+type builderState struct{ b []*Term }
+
+func builderOf(g *G, v Value) *builderState {
+	c := recvCell(g, v)
+	st, _ := c.Ext.(*builderState)
+	if st == nil {
+		st = &builderState{}
+		c.Ext = st
+	}
+	return st
+}
+
+func init() {
+	intrinsics["internal/abi.NoEscape"] = inIdentity
+	intrinsics["(*strings.Builder).WriteString"] = func(g *G, fn *ssa.Function, args []Value) Value {
+		st := builderOf(g, args[0])
+		bs := args[1].(*StrV).Bytes()
+		st.b = append(st.b, bs...)
+		return Tuple{g.m.ctx.BV(64, uint64(len(bs))), (*IfaceV)(nil)}
+	}
+	intrinsics["(*strings.Builder).Write"] = func(g *G, fn *ssa.Function, args []Value) Value {
+		st := builderOf(g, args[0])
+		bs := g.byteSeq(args[1])
+		st.b = append(st.b, bs...)
+		return Tuple{g.m.ctx.BV(64, uint64(len(bs))), (*IfaceV)(nil)}
+	}
+	intrinsics["(*strings.Builder).WriteByte"] = func(g *G, fn *ssa.Function, args []Value) Value {
+		st := builderOf(g, args[0])
+		st.b = append(st.b, args[1].(*Term))
+		return (*IfaceV)(nil)
+	}
+	intrinsics["(*strings.Builder).WriteRune"] = func(g *G, fn *ssa.Function, args []Value) Value {
+		st := builderOf(g, args[0])
+		r := g.m.simp(args[1].(*Term))
+		if r.IsConst() {
+			s := string(rune(r.SVal()))
+			st.b = append(st.b, g.m.strConst(s).b...)
+			return Tuple{g.m.ctx.BV(64, uint64(len(s))), (*IfaceV)(nil)}
+		}
+		if !g.m.cond2("rune<0x80", g.m.ctx.Ult(r, g.m.ctx.BV(32, 0x80))) {
+			g.m.cut("strings.Builder.WriteRune of symbolic non-ASCII rune")
+		}
+		st.b = append(st.b, g.m.ctx.Extract(r, 7, 0))
+		return Tuple{g.m.ctx.BV(64, 1), (*IfaceV)(nil)}
+	}
+	intrinsics["(*strings.Builder).String"] = func(g *G, fn *ssa.Function, args []Value) Value {
+		st := builderOf(g, args[0])
+		return &StrV{b: append([]*Term{}, st.b...)}
+	}
+	intrinsics["(*strings.Builder).Len"] = func(g *G, fn *ssa.Function, args []Value) Value {
+		return g.m.ctx.BV(64, uint64(len(builderOf(g, args[0]).b)))
+	}
+	intrinsics["(*strings.Builder).Reset"] = func(g *G, fn *ssa.Function, args []Value) Value {
+		builderOf(g, args[0]).b = nil
+		return nil
+	}
+	intrinsics["(*strings.Builder).Grow"] = inNop
 }
